@@ -2,6 +2,7 @@
 Soundness of the decidable form `Check.Planarise.goodB` of the hypothesis `Good` of the sweep theorems.
 -/
 import AdaptaVerif.Lemmas.PlanariseSweep
+import AdaptaVerif.Lemmas.PlanariseOverlap
 import AdaptaVerif.Check.Planarise
 namespace AdaptaVerif.Lemmas.Planarise
 open AdaptaVerif.Model.Planarise AdaptaVerif.Check.Planarise
@@ -49,5 +50,27 @@ theorem goodB_sound {S : List Seg} (h : goodB S = true) : Good S := by
     exact allApartB_sound h2 a (List.mem_flatMap.2 ⟨s, hs, ha⟩) b (List.mem_flatMap.2 ⟨t, ht, hb⟩)
   · intro s hs t ht a ha b hb
     exact allApartB_sound h3 a (List.mem_flatMap.2 ⟨s, hs, ha⟩) b (List.mem_flatMap.2 ⟨t, ht, hb⟩)
+
+theorem goodAB_sound {S : List Seg} (h : goodAB S = true) : GoodA S := by
+  unfold goodAB at h
+  simp only [Bool.and_eq_true, List.all_eq_true] at h
+  obtain ⟨⟨⟨h1, h2⟩, h3⟩, h4⟩ := h
+  refine ⟨fun s hs => segShapeB_sound (h1 s hs), ?_, ?_, ?_⟩
+  · intro s hs t ht a ha b hb
+    exact allApartB_sound h2 a (List.mem_flatMap.2 ⟨s, hs, ha⟩) b (List.mem_flatMap.2 ⟨t, ht, hb⟩)
+  · intro s hs t ht a ha b hb
+    exact allApartB_sound h3 a (List.mem_flatMap.2 ⟨s, hs, ha⟩) b (List.mem_flatMap.2 ⟨t, ht, hb⟩)
+  · intro s hs t ht a ha b hb
+    unfold identB at h4
+    simp only [List.all_eq_true, Bool.and_eq_true, Bool.or_eq_true, Bool.not_eq_true', beq_eq_false_iff_ne,
+      beq_iff_eq] at h4
+    have := h4 a (List.mem_flatMap.2 ⟨s, hs, ha⟩) b (List.mem_flatMap.2 ⟨t, ht, hb⟩)
+    refine ⟨fun hp => ?_, fun hi => ?_⟩
+    · rcases this.1 with h | h
+      · exact absurd hp h
+      · exact h
+    · rcases this.2 with h | h
+      · exact absurd hi h
+      · exact h
 
 end AdaptaVerif.Lemmas.Planarise
